@@ -159,9 +159,9 @@ def leftover_request_survives(run, F, E, rule='C02.i'):
                 if chain is None:
                     raise AnalysisBroken('R_::%s does not reach %s' % (root_name, owner.short))
             oc = cfgmod.cfg_of(owner)
-            in_loop_calls = [x for x in oc.events(('call',)) if x.e.get('m') == 'applyRequest' and oc.in_loop(x)]
+            in_loop_calls = [x for x in anchors.guard_round_sites(F, E, owner, oc) if oc.in_loop(x)]
             if not in_loop_calls:
-                raise AnalysisBroken('%s applies requests outside a loop' % owner.short)
+                raise AnalysisBroken('%s has no guard round inside a loop' % owner.short)
             chain = list(chain) + [(owner, oc, in_loop_calls[0])]
             bad = []
             for level, (fn, c, n) in enumerate(chain):
@@ -317,11 +317,28 @@ def drop_condition(run, F):
                             break
                 except cmpdomain.NotPure as e:
                     raise AnalysisBroken('%s: the drop predicate is not a pure comparison: %s' % (fn.short, e))
+                # statements that lie on every path from the last controlling decision to the guard round (the request applied by
+                # statements written out in the loop instead of inside a helper the condition calls)
+                requested_known = True
+                if applied:
+                    last, want = edges[-1]
+                    succ = [s2 for s2, l2 in last.succ if l2 == ('T' if want else 'F')]
+                    between = [n_ for n_ in c.nodes if succ and n_ is not gnode and (n_ is succ[0] or c.dominates(succ[0], n_)) and c.dominates(n_, gnode)
+                               and n_.kind in ('write', 'call')]
+                    between.sort(key=lambda n_: sum(1 for o in between if c.dominates(o, n_)))
+                    skipped = False
+                    for n_ in between:
+                        try:
+                            ev.ev(n_.e, fn, this, env, 0)
+                        except cmpdomain.NotPure:
+                            skipped = True               # something this evaluator does not model (a whole-object copy, a clear())
+                    if skipped and this['_core']['registry']['requested'] == 255:
+                        requested_known = False          # never written by what could be modelled: decided by the interpreted program (C02.d)
                 cells += 1
                 identical = co == ro and cd == rd and cm == 0 and cp == rp and (not cp or cs == rs)
                 if not applied and not identical and bad is None:
                     bad = {'accepted': dict(cur), 'outstanding request': dict(req), 'dropped unseen by guards': True}
-                if applied and this['_core']['registry']['requested'] != rd and bad is None:
+                if applied and requested_known and this['_core']['registry']['requested'] != rd and bad is None:
                     bad = {'accepted': dict(cur), 'outstanding request': dict(req), 'registry.requested after applying': this['_core']['registry']['requested']}
             run.ob('C02.f', 'the substitution loop of R_::%s (in %s) drops an outstanding request unseen by guards only if it is identical to the accepted '
                    'transition; otherwise it becomes the requested destination (%d cells, %s)' % (name, fn.short, cells, 'payload' if has_payload else 'void'),
